@@ -192,6 +192,11 @@ func BuildRoot(w *World, root string, lib *OpLib) {
 		// rebalancing trades earn a bonus) whose rebalance treasury holds only the weight-breaking fee of
 		// one medium swap — less than two rebalancing bonuses
 		prefix = []string{"perp_open_long_t1", "perp_open_short_t2", "llp_open_t1_x3", "swap_in_p1_usdc_atom_L", "swap_in_p2_elys_usdc_L", "gap_1d", "mc_claim_lp1", "commit_eden_lp1", "vest_eden_lp1", "stake_elys_lp1", "create_oracle_pool_imbalanced_lp1", "swap_in_p3_usdc_atom_M"}
+	case "R14":
+		// THREE leveraged-LP positions of three owners in pool 1 (x3, x5, x9), sweep on, locks expired: one
+		// price fall makes several of them unhealthy at once, so ONE begin-block sweep (or one bot message)
+		// force-closes several positions of the same pool
+		prefix = []string{"perp_open_long_t1", "perp_open_short_t2", "llp_open_t1_x3", "swap_in_p1_usdc_atom_L", "swap_in_p2_elys_usdc_L", "gap_1d", "mc_claim_lp1", "commit_eden_lp1", "vest_eden_lp1", "stake_elys_lp1", "llp_open_t2_x5", "llp_open_t3_x9", "gap_61m"}
 	case "R4":
 		// R1 with a large loan outstanding for 30 days under the default every-block sweep: the
 		// interest is booked, so the vault's redemption rate sits visibly above 1 (≈ 1.005)
